@@ -1,7 +1,7 @@
 ---------------------------- MODULE PatternGrammar ----------------------------
-(* The grammar of custom pattern texts at field level, for the types whose handler    *)
-(* tables are plain (local time, local date, annual date): which texts are patterns    *)
-(* and why the others are not.  A pattern text is a sequence of code points; the        *)
+(* The grammar of custom pattern texts at field level, for the seven pattern types      *)
+(* (embedded patterns excepted): which texts are patterns and why the others are not.   *)
+(*  A pattern text is a sequence of code points; the        *)
 (* outcome is "Ok" or the name of the error.  The quoting layer is the one of            *)
 (* PatternScan.tla (quotes, backslash escapes, the percent pseudo-escape); on top of it   *)
 (* every unquoted ASCII letter must be a field letter of the type, repeated at most its    *)
@@ -28,27 +28,52 @@ QuoteEnd(t, pos, q) ==
   ELSE IF t[pos] = BS THEN (IF pos + 1 > Len(t) THEN -1 ELSE QuoteEnd(t, pos + 2, q))
   ELSE QuoteEnd(t, pos + 1, q)
 
-\* field letters per type: [max |-> maximal repeat count, field |-> the field a run of n letters stands for ("" = invalid count)]
-NoHandler == [max |-> 0]
+\* what an unquoted character stands for, per type:
+\*   [kind |-> "run", max, field]   a field letter: a run of up to max of it is one field ("" = a count that means nothing)
+\*   [kind |-> "total", max, field] a capital duration field: at most one of them in a pattern
+\*   [kind |-> "single", field]     every occurrence is the field (no repeat count)
+\*   [kind |-> "literal"]           a letter that is just itself
+\*   [kind |-> "error", name]       a letter that is refused by name
+\*   [kind |-> "none"]              no handler: letters and angle brackets are refused, anything else is a literal
+Run(m, f) == [kind |-> "run", max |-> m, field |-> f]
+None == [kind |-> "none"]
+TimeLetter(c, n) ==
+  CASE c = Cp("h") -> Run(2, "hours12") [] c = Cp("H") -> Run(2, "hours24") [] c = Cp("m") -> Run(2, "minutes") [] c = Cp("s") -> Run(2, "seconds")
+    [] c = Cp("f") -> Run(9, "fraction") [] c = Cp("F") -> Run(9, "fraction") [] c = Cp("t") -> Run(2, "ampm")
+    [] OTHER -> None
+DateLetter(c, n) ==
+  CASE c = Cp("y") -> Run(4, IF n \in {2, 4} THEN "year_of_era" ELSE "")
+    [] c = Cp("u") -> Run(4, "year")
+    [] c = Cp("M") -> Run(4, IF n <= 2 THEN "month_number" ELSE "month_text")
+    [] c = Cp("d") -> Run(4, IF n <= 2 THEN "day_of_month" ELSE "day_of_week")
+    [] c = Cp("c") -> [kind |-> "single", field |-> "calendar"]
+    [] c = Cp("g") -> Run(2, "era")
+    [] OTHER -> None
 Handler(type, c, n) ==
-  IF type \in {"LocalTime"} THEN
-       CASE c = Cp("h") -> [max |-> 2, field |-> "hours12"] [] c = Cp("H") -> [max |-> 2, field |-> "hours24"]
-         [] c = Cp("m") -> [max |-> 2, field |-> "minutes"] [] c = Cp("s") -> [max |-> 2, field |-> "seconds"]
-         [] c = Cp("f") -> [max |-> 9, field |-> "fraction"] [] c = Cp("F") -> [max |-> 9, field |-> "fraction"]
-         [] c = Cp("t") -> [max |-> 2, field |-> "ampm"]
-         [] OTHER -> NoHandler
-  ELSE IF type = "LocalDate" THEN
-       CASE c = Cp("y") -> [max |-> 4, field |-> IF n \in {2, 4} THEN "year_of_era" ELSE ""]
-         [] c = Cp("u") -> [max |-> 4, field |-> "year"]
-         [] c = Cp("M") -> [max |-> 4, field |-> IF n <= 2 THEN "month_number" ELSE "month_text"]
-         [] c = Cp("d") -> [max |-> 4, field |-> IF n <= 2 THEN "day_of_month" ELSE "day_of_week"]
-         [] c = Cp("c") -> [max |-> 1000, field |-> "calendar"]       \* (no repeat count: a second c is a repeated field)
-         [] c = Cp("g") -> [max |-> 2, field |-> "era"]
-         [] OTHER -> NoHandler
-  ELSE \* AnnualDate
-       CASE c = Cp("M") -> [max |-> 4, field |-> IF n <= 2 THEN "month_number" ELSE "month_text"]
-         [] c = Cp("d") -> [max |-> 2, field |-> "day_of_month"]
-         [] OTHER -> NoHandler
+  CASE type = "LocalTime" -> TimeLetter(c, n)
+    [] type = "LocalDate" -> DateLetter(c, n)
+    [] type \in {"LocalDateTime", "Instant"} ->
+         IF c = 84 THEN [kind |-> "literal"]                                     \* T
+         ELSE IF TimeLetter(c, n).kind # "none" THEN TimeLetter(c, n) ELSE DateLetter(c, n)
+    [] type = "AnnualDate" ->
+         (CASE c = Cp("M") -> Run(4, IF n <= 2 THEN "month_number" ELSE "month_text") [] c = Cp("d") -> Run(2, "day_of_month") [] OTHER -> None)
+    [] type = "Offset" ->
+         (CASE c = Cp("H") -> Run(2, "hours24") [] c = Cp("m") -> Run(2, "minutes") [] c = Cp("s") -> Run(2, "seconds")
+            [] c = 43 \/ c = 45 -> [kind |-> "single", field |-> "sign"]
+            [] c = Cp("h") -> [kind |-> "error", name |-> "Error_hour12_not_supported"]
+            [] c = 90 -> [kind |-> "error", name |-> "Error_z_prefix_not_at_start"]
+            [] OTHER -> None)
+    [] type = "Duration" ->
+         (CASE c = 68 -> [kind |-> "total", max |-> 10, field |-> "days"]                 \* D
+            [] c = Cp("H") -> [kind |-> "total", max |-> 14, field |-> "hours24"] [] c = Cp("h") -> Run(2, "hours24")
+            [] c = Cp("M") -> [kind |-> "total", max |-> 14, field |-> "minutes"] [] c = Cp("m") -> Run(2, "minutes")
+            [] c = 83 -> [kind |-> "total", max |-> 14, field |-> "seconds"] [] c = Cp("s") -> Run(2, "seconds")
+            [] c = Cp("f") -> Run(9, "fraction") [] c = Cp("F") -> Run(9, "fraction")
+            [] c = 43 \/ c = 45 -> [kind |-> "single", field |-> "sign"]
+            [] OTHER -> None)
+\* types in whose patterns a period (and a semicolon) directly before a run of F is that fraction's own separator
+PeriodOwnsFraction(type, c) == (c = Cp(".") /\ type \in {"LocalTime", "LocalDateTime", "Instant", "Duration"})
+                               \/ (c = Cp(";") /\ type \in {"LocalTime", "LocalDateTime", "Instant"})
 
 FieldsMakeSense(used) ==
   IF "era" \in used /\ "year_of_era" \notin used THEN "Error_era_without_year_of_era"
@@ -66,27 +91,42 @@ GrammarFrom(type, t, pos, used) ==
     ELSE IF c = PCT THEN (IF pos + 1 > Len(t) THEN "Error_percent_at_end"
                           ELSE IF t[pos + 1] = PCT THEN "Error_percent_doubled" ELSE GrammarFrom(type, t, pos + 1, used))
     \* a period or semicolon directly before a run of F belongs to that optional fraction
-    ELSE IF type = "LocalTime" /\ (c = Cp(".") \/ c = Cp(";")) /\ pos + 1 <= Len(t) /\ t[pos + 1] = Cp("F") THEN
+    ELSE IF PeriodOwnsFraction(type, c) /\ pos + 1 <= Len(t) /\ t[pos + 1] = Cp("F") THEN
          LET n == RunLen(t, pos + 1, Cp("F")) IN
          IF n > 9 THEN "Error_repeat_count_exceeded"
          ELSE IF "fraction" \in used THEN "Error_repeated_field"
          ELSE GrammarFrom(type, t, pos + 1 + n, used \cup {"fraction"})
     ELSE LET n == RunLen(t, pos, c)
              h == Handler(type, c, n) IN
-         IF h.max = 0 THEN (IF IsLetter(c) \/ c = Cp("<") \/ c = Cp(">") THEN "Error_unquoted_literal" ELSE GrammarFrom(type, t, pos + 1, used))
-         ELSE IF c = Cp("c") THEN (IF "calendar" \in used THEN "Error_repeated_field" ELSE GrammarFrom(type, t, pos + 1, used \cup {"calendar"}))
-         ELSE IF n > h.max THEN "Error_repeat_count_exceeded"
-         ELSE IF h.field = "" THEN "Error_invalid_repeat_count"
-         ELSE IF h.field \in used THEN "Error_repeated_field"
-         ELSE GrammarFrom(type, t, pos + n, used \cup {h.field})
+         CASE h.kind = "none" -> (IF IsLetter(c) \/ c = Cp("<") \/ c = Cp(">") THEN "Error_unquoted_literal" ELSE GrammarFrom(type, t, pos + 1, used))
+           [] h.kind = "literal" -> GrammarFrom(type, t, pos + 1, used)
+           [] h.kind = "error" -> h.name
+           [] h.kind = "single" -> (IF h.field \in used THEN "Error_repeated_field" ELSE GrammarFrom(type, t, pos + 1, used \cup {h.field}))
+           [] h.kind = "total" -> (IF n > h.max THEN "Error_repeat_count_exceeded"
+                                   ELSE IF "total" \in used THEN "Error_multiple_total_fields"
+                                   ELSE IF h.field \in used THEN "Error_repeated_field"
+                                   ELSE GrammarFrom(type, t, pos + n, used \cup {h.field, "total"}))
+           [] h.kind = "run" -> (IF n > h.max THEN "Error_repeat_count_exceeded"
+                                 ELSE IF h.field = "" THEN "Error_invalid_repeat_count"
+                                 ELSE IF h.field \in used THEN "Error_repeated_field"
+                                 ELSE GrammarFrom(type, t, pos + n, used \cup {h.field}))
 
 \* single characters are standard patterns: the culture-independent ones are known, the culture's own expand to a custom text
-StandardLetters(type) == CASE type = "LocalTime" -> {111, 79, 116, 84, 114}       \* o O t T r
-                           [] type = "LocalDate" -> {82, 114, 100, 68, 77}          \* R r d D M
-                           [] type = "AnnualDate" -> {71}                            \* G
+StandardLetters(type) == CASE type = "LocalTime" -> {111, 79, 116, 84, 114}                       \* o O t T r
+                           [] type = "LocalDate" -> {82, 114, 100, 68, 77}                          \* R r d D M
+                           [] type = "AnnualDate" -> {71}                                            \* G
+                           [] type = "LocalDateTime" -> {111, 79, 114, 82, 115, 83, 102, 70, 103, 71} \* o O r R s S f F g G
+                           [] type = "Instant" -> {103}                                              \* g
+                           [] type = "Offset" -> {103, 71, 105, 73, 108, 109, 115, 76, 77, 83}       \* g G i I l m s L M S
+                           [] type = "Duration" -> {111, 106}                                         \* o j
 Grammar(type, t) ==
   IF Len(t) = 0 THEN "Error_empty"
   ELSE IF Len(t) = 1 THEN (IF t[1] \in StandardLetters(type) THEN "Ok" ELSE "Error_unknown_standard_pattern")
+  \* an offset pattern may begin with Z ("Z" for zero, else the rest of the pattern); a Z-prefixed pattern must have a rest
+  ELSE IF type = "Offset" /\ t = <<PCT, 90>> THEN "Error_empty_z_prefixed_pattern"
+  ELSE IF type = "Offset" /\ t[1] = 90 THEN GrammarFrom(type, t, 2, {})
   ELSE GrammarFrom(type, t, 1, {})
-GrammarTypes == {"LocalTime", "LocalDate", "AnnualDate"}
+GrammarTypes == {"LocalTime", "LocalDate", "AnnualDate", "LocalDateTime", "Instant", "Offset", "Duration"}
+\* (embedded patterns - l<...>, ld<...>, lt<...> in date-time patterns - are outside this grammar)
+Covered(type, t) == type \in GrammarTypes /\ (type \in {"LocalDateTime", "Instant"} => \A i \in 1..Len(t) : t[i] # 108)
 =============================================================================
